@@ -321,7 +321,12 @@ class Analysis:
                     if key in st.cells:
                         return [(st.cells[key], st)]
                     return [(lvar("ptr:%s" % key), st)]
-                return [(lvar("ptr:" + ir.render(e)), st)]
+                key = self.cellkey(f, e, st)
+                if key is None:
+                    return [(lvar("ptr:" + ir.render(e)), st)]
+                if key not in st.cells:
+                    st.cells[key] = lvar("ptr:" + key)
+                return [(st.cells[key], st)]
             key = self.cellkey(f, e, st)
             if key is None:
                 return [(self.fresh(st, "?", False), st)]
